@@ -89,6 +89,42 @@ Theorem C12_md5_concrete_length : forall x, length (md5 x) = 16.
 Proof. exact md5_length. Qed.
 Print Assumptions C12_md5_concrete_length.
 
+(* "The receiver learns the pipe from the frame itself": for a call whose pipe names registered
+   filters only, the server learns exactly the caller's ids and the client learns exactly them
+   back from the reply frame ... *)
+Theorem C12_both_ends_learn_the_callers_pipe : forall reg ids p,
+  pipe_append reg [] ids = (p, None) -> exchange reg ids [] = Some (ids, ids).
+Proof. exact exchange_learns_callers_pipe. Qed.
+Print Assumptions C12_both_ends_learn_the_callers_pipe.
+
+(* ... a call naming an unregistered filter is refused whatever else it carries ... *)
+Theorem C12_exchange_refuses_unregistered : forall reg ids added,
+  (exists id, In id ids /\ reg_get reg id = None) -> exchange reg ids added = None.
+Proof. exact exchange_refuses_unregistered. Qed.
+Print Assumptions C12_exchange_refuses_unregistered.
+
+(* ... and on a connection carrying any sequence of calls, what the two ends observe for one
+   call is a function of that call alone - not of the calls before or after it on the same
+   connection (no pipe outlives its frame). *)
+Theorem C12_pipe_is_per_frame_not_per_connection : forall reg before c after,
+  nth_error (conn_exchange reg (before ++ c :: after)) (length before) =
+  Some (exchange reg (fst c) (snd c)).
+Proof. exact conn_exchange_positionwise. Qed.
+Print Assumptions C12_pipe_is_per_frame_not_per_connection.
+
+(* A filter that bounds what it unpacks (gzip under xfer.SizeLimit) restores the payload exactly
+   or refuses it - it never hands over an altered (truncated) payload. *)
+Theorem C12_bounded_filter_exact_or_refused : forall lim f x y,
+  inverts f -> f_pack (limit_filter lim f) x = Some y ->
+  f_unpack (limit_filter lim f) y = if over_limit lim x then None else Some x.
+Proof. exact limit_filter_exact_or_refused. Qed.
+Print Assumptions C12_bounded_filter_exact_or_refused.
+
+Theorem C12_bounded_filter_never_alters : forall lim f d x,
+  f_unpack (limit_filter lim f) d = Some x -> f_unpack f d = Some x /\ over_limit lim x = false.
+Proof. exact limit_filter_never_alters. Qed.
+Print Assumptions C12_bounded_filter_never_alters.
+
 (* Non-vacuity: a registry of inverting filters and a non-trivial accepted pipe. *)
 Example C12_example :
   let reg := [md5_filter md5 "m"%byte] in
